@@ -109,3 +109,93 @@ Theorem reorder_refuses {F} `{Num F} (shape no : list nat) (phi : list F) :
   ~ Permutation no (seq 1 (length shape)) -> reorder_pops shape no phi = None.
 Proof. intros Hn. unfold reorder_pops. destruct (list_nat_eqb _ _) eqn:E; auto. exfalso. apply Hn.
   apply list_nat_eqb_eq in E. rewrite <- E. apply isort_perm. Qed.
+
+(** ** composition of two reorderings *)
+Ltac leb_prop :=
+  repeat match goal with
+  | H : (_ <=? _) = true |- _ => apply Nat.leb_le in H
+  | H : (_ <=? _) = false |- _ => apply Nat.leb_gt in H
+  end.
+Lemma insert_sorted_comm x y l : insert_sorted x (insert_sorted y l) = insert_sorted y (insert_sorted x l).
+Proof. induction l as [|z l IH]; cbn.
+  - destruct (x <=? y) eqn:E1, (y <=? x) eqn:E2; cbn; rewrite ?E1, ?E2; try reflexivity; leb_prop; try lia.
+    assert (x = y) by lia. subst. reflexivity.
+  - destruct (y <=? z) eqn:E1, (x <=? z) eqn:E2; cbn;
+    destruct (x <=? y) eqn:E3, (y <=? x) eqn:E4; cbn; rewrite ?E1, ?E2, ?E3, ?E4; cbn; rewrite ?E1, ?E2;
+    try reflexivity; leb_prop; try lia; try (assert (x = y) by lia; subst; reflexivity).
+    now rewrite IH. all: now rewrite IH. Qed.
+Lemma isort_perm_eq l l' : Permutation l l' -> isort l = isort l'.
+Proof. induction 1 as [|x l l' P IH|x y l|l l' l'' P1 IH1 P2 IH2].
+  - reflexivity.
+  - change (insert_sorted x (isort l) = insert_sorted x (isort l')). now rewrite IH.
+  - change (insert_sorted y (insert_sorted x (isort l)) = insert_sorted x (insert_sorted y (isort l))). apply insert_sorted_comm.
+  - congruence. Qed.
+Lemma isort_seq a d : isort (seq a d) = seq a d.
+Proof. revert a. induction d as [|d IH]; intros a; cbn; auto. rewrite IH. destruct d; cbn; auto.
+  replace (a <=? S a) with true by (symmetry; apply Nat.leb_le; lia). reflexivity. Qed.
+Lemma list_nat_eqb_refl l : list_nat_eqb l l = true.
+Proof. induction l; cbn; auto. now rewrite Nat.eqb_refl. Qed.
+Lemma valid_order_iff d no : valid_order d no <-> Permutation no (seq 1 d).
+Proof. unfold valid_order. split.
+  - intros H. apply list_nat_eqb_eq in H. rewrite <- H. apply isort_perm.
+  - intros P. rewrite (isort_perm_eq _ _ P), isort_seq. apply list_nat_eqb_refl. Qed.
+
+Definition compose_order (n1 n2 : list nat) : list nat := map (fun i => nth (pred i) n1 0) n2.
+
+Lemma compose_valid d n1 n2 : valid_order d n1 -> valid_order d n2 -> valid_order d (compose_order n1 n2).
+Proof. rewrite !valid_order_iff. intros P1 P2. unfold compose_order.
+  assert (Hl : length n1 = d) by (apply Permutation_length in P1; now rewrite seq_length in P1).
+  rewrite (Permutation_map _ P2).
+  assert (E : map (fun i => nth (pred i) n1 0) (seq 1 d) = n1).
+  { rewrite <- seq_shift, map_map. cbn [pred]. rewrite <- Hl. apply map_nth_seq. }
+  rewrite E. exact P1. Qed.
+Lemma compose_axes d n1 n2 : valid_order d n1 -> valid_order d n2 ->
+  map pred (compose_order n1 n2) = map (fun j => nth j (map pred n1) 0) (map pred n2).
+Proof. intros _ _. unfold compose_order. rewrite !map_map. apply map_ext. intros i.
+  change 0 with (pred 0) at 2. now rewrite map_nth. Qed.
+
+Theorem reorder_compose {F} `{Num F} (shape n1 n2 : list nat) (phi : list F) :
+  valid_order (length shape) n1 -> valid_order (length shape) n2 ->
+  match reorder_pops shape n1 phi with
+  | Some (s1, r1) => reorder_pops s1 n2 r1
+  | None => None
+  end = reorder_pops shape (compose_order n1 n2) phi.
+Proof. intros V1 V2. set (d := length shape) in *.
+  pose proof (compose_valid d n1 n2 V1 V2) as V12.
+  destruct (axes_facts shape n1 V1) as (L1 & ND1 & In1). fold d in L1, In1.
+  destruct (axes_facts shape n2 V2) as (L2 & ND2 & In2). fold d in L2, In2.
+  destruct (axes_facts shape _ V12) as (L12 & ND12 & In12). fold d in L12, In12.
+  set (a1 := map pred n1) in *. set (a2 := map pred n2) in *.
+  assert (E12 : map pred (compose_order n1 n2) = map (fun j => nth j a1 0) a2) by (apply (compose_axes d); auto).
+  rewrite E12 in *. set (a12 := map (fun j => nth j a1 0) a2) in *.
+  set (s1 := map (fun a => nth a shape 0) a1).
+  assert (Ls1 : length s1 = d) by (unfold s1; now rewrite map_length).
+  assert (V2' : valid_order (length s1) n2) by (now rewrite Ls1).
+  unfold reorder_pops at 1. fold d. unfold valid_order in V1. rewrite V1. unfold transpose_flat at 1. fold a1 s1.
+  set (r1 := map _ (seq 0 (prodn s1))).
+  unfold reorder_pops. rewrite Ls1. fold d. unfold valid_order in V2, V12. rewrite V2, V12. f_equal.
+  unfold transpose_flat. fold a2. rewrite E12. fold a12. rewrite Ls1. fold d.
+  assert (Es : map (fun a => nth a s1 0) a2 = map (fun a => nth a shape 0) a12).
+  { unfold a12. rewrite map_map. apply map_ext_in. intros a Ha. apply In2 in Ha.
+    unfold s1. apply (nth_map_lt (fun a => nth a shape 0) a1 a 0 0). now rewrite L1. }
+  rewrite Es. set (s12 := map (fun a => nth a shape 0) a12). f_equal.
+  apply map_seq_ext. intros idx Hidx.
+  assert (Hix : Forall2 lt (unflat s12 idx) s12) by (apply unflat_lt; lia).
+  set (ix := unflat s12 idx) in *.
+  (* entry of the intermediate array *)
+  assert (Hix1 : Forall2 lt ix (map (fun a => nth a s1 0) (map pred n2))) by (fold a2; now rewrite Es).
+  destruct (reorder_is_permutation_gen s1 n2 r1 V2' ix Hix1) as (_ & _ & Hr1 & _).
+  unfold old_index in Hr1. fold a2 in Hr1. rewrite Ls1 in Hr1.
+  set (ix1 := map (fun a => nth (index_of a a2) ix 0) (seq 0 d)) in *.
+  unfold r1, nthF. rewrite (nth_map_seq _ n0) by (now apply flatidx_lt). cbn [plus].
+  rewrite unflat_flatidx by exact Hr1. unfold nthF. f_equal. f_equal.
+  apply map_seq_ext. intros a Ha. cbn [plus] in Ha.
+  destruct (index_of_spec a a1) as [Hk1 Hk2]; [apply In1; lia|]. rewrite L1 in Hk1.
+  unfold ix1. rewrite nth_map_seq by exact Hk1. cbn [plus].
+  set (k := index_of a a1) in *.
+  destruct (index_of_spec k a2) as [Hj1 Hj2]; [apply In2; lia|].
+  set (j := index_of k a2) in *.
+  f_equal.
+  assert (Ea : nth j a12 0 = a).
+  { unfold a12. rewrite (nth_map_lt (fun j => nth j a1 0) a2 j 0 0) by exact Hj1. now rewrite Hj2. }
+  rewrite <- Ea. symmetry. apply index_of_nth; auto. rewrite L12. now rewrite L2 in Hj1. Qed.
